@@ -15,8 +15,10 @@ RULE_TEXT = "obligation = (rule, constant / default / (shape, type)); evaluation
 
 
 def run(ctx) -> None:
-    ctx.rules_run += ["K1", "K2", "K3", "J1", "Q4"]
+    ctx.rules_run += ["K1", "K2", "K3", "J1", "Q4", "J4", "J5"]
     rule_Q4(ctx)
+    jsonrules.rule_J4(ctx)
+    jsonrules.rule_J5(ctx)
     jsonrules.rule_K1(ctx)
     jsonrules.rule_K2(ctx)
     jsonrules.rule_K3(ctx)
